@@ -438,6 +438,9 @@ def get_index(v, idx, ty=None):
             break
         if cur is not v:
             return get_index(cur, idx, ty)
+    if isinstance(v, Sym) and v.atom.kind == 'app' and v.atom.name == 'store' and isinstance(v.atom.args[1], RF) and v.atom.args[1] == idx:
+        # read-over-write at the syntactically identical (symbolic) position: the element just written
+        return v.atom.args[2]
     return mk_sym(nf.app_atom('elem', frozen(v), idx), ty or elem_ty(v))
 
 
@@ -1365,6 +1368,11 @@ class Interp:
             ca = v.atom
             if ca.kind == 'sym' and ca.name.startswith('const:') and '=' in ca.name:
                 return RF.const(int(ca.name.rsplit('=', 1)[1]))
+            if ca.kind == 'app' and str(ca.name).startswith('mut:std::option::Option::<T>::get_or_insert') or ca.kind == 'app' and str(ca.name).startswith('mut:std::option::Option::get_or_insert'):
+                # the slot after Option::get_or_insert / get_or_insert_with / insert: always Some (core::option)
+                for x in variants:
+                    if x['name'] == 'Some':
+                        return RF.const(int(x['val']))
             return RF.atom(nf.app_atom('discr', v.atom))
         if isinstance(v, Ite):
             return ite(v.c, self.discriminant(v.a, rv), self.discriminant(v.b, rv))
